@@ -86,6 +86,12 @@ def raw_rules(facts, rep):
     ok &= rep.check(good, rule, "comment", where(na, s["span"]), "comment carried over from the old end record", "appending writer's comment is %s" % show(vals["comment"])[:80])
     fl = vals["files"]
     good = fl[0] == "ok" and fl[1][0] == "call" and fl[1][1].endswith("Iterator::collect")
+    if not good and fl[0] == "call" and re.search(r"Vec::<T>::(new|with_capacity)$|Vec::<T, A>::with_capacity", fl[1]):
+        # the same list built by an explicit loop: one push of the parser's result per counted record
+        pushes = [(b2, t2) for b2, t2 in na.calls() if callee_matches(t2, r"Vec::<T, A>::push$") and len(t2["args"]) == 2]
+        pv = [norm(ex.operand(t2["args"][1], (b2, None))) for b2, t2 in pushes]
+        inloop = [any(b2 in body for _, body in na.loops()) for b2, _ in pushes]
+        good = len(pushes) == 1 and pv[0][0] == "ok" and pv[0][1][0] == "call" and pv[0][1][1].endswith("central_header_to_zip_file") and all(inloop)
     ok &= rep.check(good, rule, "files=collect", where(na, s["span"]), "files = the parsed records, collected in directory order", "appending writer's entry list is %s" % show(fl)[:100])
     # nothing touches the entry list between parsing and construction
     fop = flds["files"]
@@ -109,6 +115,11 @@ def raw_rules(facts, rep):
         for b2, t in na.calls():
             for a in t["args"]:
                 if a["k"] != "const" and (a["place"]["l"] in refs or (a["place"]["l"] in locs and not callee_matches(t, r"Try::branch$|from_residual$"))):
+                    # building the list entry by entry from the parser is the same thing as collecting it
+                    if callee_matches(t, r"Vec::<T, A>::push$") and len(t["args"]) == 2:
+                        pv = norm(ex.operand(t["args"][1], (b2, None)))
+                        if pv[0] == "ok" and pv[1][0] == "call" and pv[1][1].endswith("central_header_to_zip_file"):
+                            continue
                     touched.append(t["callee"])
     ok &= rep.check(not touched, rule, "files-untouched", where(na, s["span"]), "the parsed entry list is moved into the writer unmodified",
                     "the parsed entry list is passed to %s before the writer is built: existing entries can be reordered or altered" % touched)
